@@ -375,13 +375,13 @@ func genC04(g *Gen, idx int) *Plan {
 func init() {
 	Register(&Check{ID: "C01", Level: "exploration",
 		Rule:   "random raw-peer sessions against the real gateway: REGISTER/SUBSCRIBE/broker-publish histories interleaved with PUBLISH over all flag combinations, topic-id types and ids (registered, predefined incl. shadowed, short, unknown, 0, 0xFFFF), payload sizes at the header-form boundary and MaxPayloadLength, duplication/reordering on; a shadow of what each id denotes is kept from what the gateway itself acknowledged; non-trivial = at least one PUBLISH consumed in an accepted state; distinct = distinct canonical history",
-		Gen:    genC01, Oracle: oracleC01, Quick: 600, Thorough: 40000})
+		Gen:    genC01, Oracle: oracleC01, Quick: 600, Thorough: 80000})
 	Register(&Check{ID: "C02", Level: "exploration",
 		Rule:   "an active raw peer with its own registrations/subscriptions; the broker model publishes QoS 0-2 on short, predefined (overlapping configurations), registered and brand-new names, singly and in bursts; the peer keeps its knowledge table exactly as a client would and every PUBLISH it receives must resolve, by that table, to the broker's topic; non-trivial = a broker PUBLISH reached the peer",
-		Gen:    genC02, Oracle: oracleC02, Quick: 500, Thorough: 30000})
+		Gen:    genC02, Oracle: oracleC02, Quick: 1500, Thorough: 120000})
 	Register(&Check{ID: "C03", Level: "exploration",
 		Rule:   "raw peer sends SUBSCRIBE/UNSUBSCRIBE (all topic-id types, QoS 0-2, DUP), PUBREL, PINGREQ, DISCONNECT, QoS 2 publishes; the broker answers SUBACK with scripted codes {0,1,2,0x80} independent of the requested QoS; one translated packet per input with equal id/filter/QoS; SUBACK accept/QoS/topic-id rules; non-trivial = at least one control packet translated or SUBACK judged",
-		Gen:    genC03, Oracle: oracleC03, Quick: 500, Thorough: 30000})
+		Gen:    genC03, Oracle: oracleC03, Quick: 1500, Thorough: 120000})
 	Register(&Check{ID: "C04", Level: "exploration",
 		Rule:   "long REGISTER/SUBSCRIBE/broker-publish sequences; id space shrunk to 3..40 ids through the MaxTopicAlias seam (real 0xFFFE range every 2000th thorough run, 65534+ registrations); ids seen in REGACK/SUBACK/gateway REGISTER must be in range, never a predefined id visible to that client, and id->name must stay a function also after exhaustion; non-trivial = >= 3 allocations",
 		Gen:    genC04, Oracle: oracleC04, Quick: 500, Thorough: 20000,
